@@ -10,6 +10,7 @@ Property theorems only (model: `Model/Reject.lean`, lemmas: `Lemmas/RejectLemmas
 for every library, every option combination, every recorded draw of the generator (`idx`, `uu`), every
 likelihood function `llf`, every `expf` — no bound on sizes.  `out` is what `Reject.rejectionSample` returns.
 -/
+set_option linter.unusedSectionVars false
 namespace Reject
 
 section Generic
